@@ -428,7 +428,10 @@ class InstallStream(Stream):
             "requirement trees: exhaustive block wanted{unpinned,1.0,1.0.0,2.0} x installed{none,1.0,1.0.0,2.0,3.0} x "
             "recorded{none,1.0,1.0.0,2.0,3.0} x allow_all_imports{on,off}, each run twice; after every pass both the live entry.data "
             "record and the record as PERSISTED (snapshot of what was last handed to async_update_entry; a change of "
-            "allow_all_imports reloads the entry from it) are observed and judged; random histories with external "
+            "allow_all_imports is a YAML edit + update_yaml_config) are observed and judged; between passes histories contain "
+            "Home Assistant restarts (entry reloaded from the persisted data, then the real YAML import flow with the stored entry "
+            "present) and YAML reloads, and the record must survive them; the fake installer FAILS (RequirementsNotFound) for chosen "
+            "packages and the record may only contain what is installed when the run ends; random histories with external "
             "installs/upgrades/removals between runs, changing requirement files, packages missing from the index; non-trivial = a "
             "package is both required and installed or recorded, or a later run follows an installing run; distinct by the whole history")
     requires = "From PV Require Import Req.Merge Req.Install Req.Spec Req.ReqCheck.\nFrom Coq Require Import String.\nOpen Scope string_scope."
@@ -454,8 +457,22 @@ class InstallStream(Stream):
                         step = {"ext": [], "allow": allow, "files": [{"id": 0, "dir": "", "lines": [line, "bar==1.0"]}], "index": [["foo", "5.0"]]}
                         cases.append({"profile": "table", "env0": [] if inst is None else [["foo", inst]],
                                       "rec0": None if recd is None else [["foo", recd]], "steps": [step, dict(step)]})
-        if len(cases) > budget * 0.5:
-            cases = rng.sample(cases, int(budget * 0.5))
+        if len(cases) > budget * 0.45:
+            cases = rng.sample(cases, int(budget * 0.45))
+        # (a2) a failing installer, then the host installs the package itself and the pin moves; a Home Assistant restart
+        #      (or YAML reload) between an installing pass and a pass whose pin moved
+        for v1, v2 in (("1.0", "1.1"), ("2.0", "1.9"), ("1.0", "1.0.0")):
+            f1 = [{"id": 0, "dir": "", "lines": [f"flaky-pkg=={v1}", "bar==1.0"]}]
+            f2 = [{"id": 0, "dir": "", "lines": [f"flaky-pkg=={v2}", "bar==1.0"]}]
+            for failset in (["flaky-pkg"], ["flaky-pkg", "bar"], ["bar"]):
+                cases.append({"profile": "fail", "env0": [], "rec0": rng.choice([None, []]), "steps": [
+                    {"ext": [], "allow": True, "files": f1, "index": [], "fail": failset},
+                    {"ext": [["flaky-pkg", v1]], "allow": True, "files": f2, "index": []}]})
+            for pre in (["restart"], ["reload"], ["reload", "restart"]):
+                cases.append({"profile": "restart", "env0": [], "rec0": rng.choice([None, []]), "steps": [
+                    {"ext": [], "allow": True, "files": f1, "index": []},
+                    {"ext": [], "allow": True, "files": f1, "index": [], "pre": pre},
+                    {"ext": [], "allow": True, "files": f2, "index": [], "pre": pre if rng.random() < 0.5 else []}]})
         # (b) random histories
         while len(cases) < budget:
             profile = pick_profile(rng)
@@ -485,7 +502,15 @@ class InstallStream(Stream):
                 if rng.random() < 0.5:
                     files = simple_files(rng, pk, vs, profile)
                 index = [[p, rng.choice(vs + ["7.7"])] for p in pk if rng.random() < 0.8]
-                steps.append({"ext": ext, "allow": rng.random() < 0.85, "files": files, "index": index})
+                step = {"ext": ext, "allow": rng.random() < 0.85, "files": files, "index": index}
+                r = rng.random()
+                if steps and r < 0.2:
+                    step["pre"] = ["restart"]
+                elif steps and r < 0.3:
+                    step["pre"] = rng.choice([["reload"], ["reload", "restart"], ["restart", "reload"]])
+                if rng.random() < 0.15:
+                    step["fail"] = [p for p in pk if rng.random() < 0.5]
+                steps.append(step)
             cases.append({"profile": profile, "env0": env0, "rec0": rec0 if (rec0 or rng.random() < 0.5) else None, "steps": steps})
         return cases
 
@@ -503,13 +528,16 @@ class InstallStream(Stream):
     def to_coq(self, case, obs):
         steps = []
         for st, o in zip(case["steps"], obs["steps"]):
-            sin = "{| si_ext := %s; si_allow := %s; si_files := %s; si_index := %s |}" % (
+            sin = "{| si_ext := %s; si_allow := %s; si_files := %s; si_index := %s; si_fail := %s |}" % (
                 qlist(f"({qs(k)}, {qopt(qs(v) if v is not None else None)})" for k, v in st.get("ext", [])),
-                "true" if st["allow"] else "false", qfiles(st["files"], o["order"]), qalist(st.get("index", [])))
+                "true" if st["allow"] else "false", qfiles(st["files"], o["order"]), qalist(st.get("index", [])),
+                qlist(qs(p) for p in st.get("fail", [])))
             args = None if o["args"] is None else qlist(qs(a) for a in o["args"])
-            steps.append("{| hs_in := %s; hs_table := %s; hs_env_before := %s; hs_kind := %d%%N; hs_args := %s; hs_rec_after := %s; "
+            steps.append("{| hs_in := %s; hs_table := %s; hs_env_before := %s; hs_kind := %d%%N; hs_args := %s; hs_rec_start := %s; hs_pers_start := %s; "
+                         "hs_rec_after := %s; "
                          "hs_persisted := %s; hs_updated := %s; hs_env_after := %s |}" % (
-                             sin, qrows(o["table"]), qalist(o["env_before"]), o["kind"], qopt(args), qalist(o["rec_after"]),
+                             sin, qrows(o["table"]), qalist(o["env_before"]), o["kind"], qopt(args), qalist(o["rec_start"]), qalist(o["pers_start"]),
+                             qalist(o["rec_after"]),
                              qalist(o["persisted"]), "true" if o["updated"] else "false", qalist(o["env_after"])))
         return "{| hc_ranks := %s; hc_env0 := %s; hc_rec0 := %s; hc_steps := %s |}" % (
             qranks(obs["ranks"]), qalist(case.get("env0", [])), qalist(case.get("rec0") or []), qlist(steps))
@@ -526,12 +554,14 @@ class InstallStream(Stream):
         return any(r[0].strip() in known for o in obs["steps"] for r in o["table"])
 
     def kind(self, case, obs):
-        outs = "".join("x" if o["kind"] == 1 else ("i" if o["args"] else "-") for o in obs["steps"])
+        outs = "".join(("R" if "restart" in o.get("events", []) else "") + ("F" if o["kind"] == 1 and o["args"] else "x" if o["kind"] == 1
+                       else ("i" if o["args"] else "-")) for o in obs["steps"])
         return f"{case.get('profile', 'clean')}/{outs}"
 
     def describe(self, case, obs):
         return {"profile": case.get("profile"), "installed0": case.get("env0"), "record0": case.get("rec0"),
-                "steps": [{"allow": s["allow"], "external": s.get("ext"), "files": [(f["dir"], f["lines"]) for f in s["files"]],
+                "steps": [{"allow": s["allow"], "before_pass": o.get("events"), "installer_fails_for": s.get("fail"),
+                           "record_at_start": o["rec_start"], "external": s.get("ext"), "files": [(f["dir"], f["lines"]) for f in s["files"]],
                            "installer_args": o["args"], "record_after": o["rec_after"], "persisted_record": o["persisted"],
                            "update_entry_called": o["updated"], "raised": o["error"]}
                           for s, o in zip(case["steps"][:3], obs["steps"][:3])]}
